@@ -353,6 +353,12 @@ RAW = {
     "third-marker": ("---", "response-last", "reject", True),
     "syntax": ("uint8 = = 1", "any", "reject", True),
     "syntax2": ("uint8[ x", "any", "reject", True),
+    # characters that look like blanks but are not DSDL white space: a page break on a line of its own, a pasted no-break space
+    "formfeed-line": ("\x0c", "any", "reject", True),
+    "vtab-line": ("\x0b", "any", "reject", True),
+    "nbsp-line": ("\u00a0", "any", "reject", True),
+    "stmt-formfeed": ("uint8 q_ff\x0c", "any", "reject", True),
+    "stmt-nbsp": ("uint8 q_nb\u00a0", "any", "reject", True),
     "undefined-ident": ("@assert NOPE_X == 1", "any", "reject", True),
     "undefined-type": ("zz.nope.Type.1.0 q_undefined", "any", "reject", True),
     "div-zero": ("@assert 1 / 0 == 1", "any", "reject", True),
